@@ -58,8 +58,11 @@ def _verify_worker(args):
         rec["spec_mod"] = c.spec_mod
         ctx = Ctx(src, reg)
         ctx.load_world()
+        check_outcome = None
+        nout = 0
         try:
-            rec["paths"] = verify_contract(ctx, c, prop)
+            nout, check_outcome = verify_contract(ctx, c, prop)
+            rec["paths"] = nout
         except Unsupported as e:
             rec["unsupported"] = str(e)
             ctx.current = None
@@ -70,7 +73,9 @@ def _verify_worker(args):
         for mname, mi in src.modules.items():
             if not mi.is_spec:
                 rec["sha"][mi.path] = mi.sha256
-        todo = [ob for ob in ctx.obligations if prop in (ob.props if ob.props is not None else c.props)]
+
+        def relevant(ob):
+            return prop in (ob.props if ob.props is not None else c.props)
 
         def one(ob):
             discharge(ctx, ob, timeout_ms)
@@ -87,7 +92,37 @@ def _verify_worker(args):
                 "model_vals": _model_vals(ob),
             }
         from .par import pmap
-        rec["records"] = pmap(one, todo, inner_jobs)
+        body_obs = [ob for ob in ctx.obligations if relevant(ob)]
+        rec["records"] = pmap(one, body_obs, inner_jobs)
+
+        def outcome_job(i):
+            import signal
+            n0 = len(ctx.obligations)
+
+            class _Budget(Exception):
+                pass
+
+            def _alarm(*a):
+                raise _Budget()
+            signal.signal(signal.SIGALRM, _alarm)
+            signal.alarm(int(os.environ.get("PYVC_OUTCOME_BUDGET_S", "600")))
+            try:
+                check_outcome(i)
+            except Unsupported as e:
+                signal.alarm(0)
+                return {"unsupported": f"outcome {i}: {e}", "records": []}
+            except _Budget:
+                return {"unsupported": f"outcome {i}: generation budget exceeded", "records": []}
+            finally:
+                signal.alarm(0)
+            return {"unsupported": None, "records": [one(ob) for ob in ctx.obligations[n0:] if relevant(ob)]}
+        if check_outcome is not None:
+            budget = int(os.environ.get("PYVC_OUTCOME_BUDGET_S", "420"))
+            for r in pmap(outcome_job, range(nout), inner_jobs, timeout_s=budget,
+                          on_timeout=lambda i: {"unsupported": f"outcome path {i}: not decided within {budget} s", "records": []}):
+                if r["unsupported"] and not rec["unsupported"]:
+                    rec["unsupported"] = r["unsupported"]
+                rec["records"] += r["records"]
         rec["assumptions"] = sorted({n for r in rec["records"] for n in r["notes"]})
     except Exception:
         rec["error"] = traceback.format_exc()
@@ -127,7 +162,16 @@ def _z3str(v):
     return re.sub(r"\\u\{([0-9a-fA-F]+)\}", lambda m: chr(int(m.group(1), 16)), s)
 
 
+def _install_debug():
+    import faulthandler, signal
+    try:
+        faulthandler.register(signal.SIGUSR1, all_threads=True)
+    except Exception:
+        pass
+
+
 def main(argv=None):
+    _install_debug()
     ap = argparse.ArgumentParser()
     ap.add_argument("prop")
     ap.add_argument("--tier", default=os.environ.get("VERIF_TIER", "quick"))
